@@ -111,6 +111,19 @@ func (r *Run) Undecided(format string, a ...interface{}) {
 	r.undecided = append(r.undecided, fmt.Sprintf(format, a...))
 }
 
+// HasUndecided reports whether a rule could not resolve what it is anchored in.
+func (r *Run) HasUndecided() bool { return len(r.undecided) > 0 }
+
+// AdoptSecondView replaces the outcome of a run that could not resolve its anchors by the outcome of the
+// run on the view with helper functions inlined, which could.
+func (r *Run) AdoptSecondView(r2 *Run) {
+	first := strings.Join(r.undecided, "; ")
+	r.Obs, r.Rules, r.Analysed, r.Assume, r.Explain, r.NotCov = r2.Obs, r2.Rules, r2.Analysed, r2.Assume, r2.Explain, r2.NotCov
+	r.undecided = nil
+	r.Count("second_view_runs", 1)
+	r.Assume = append(r.Assume, "decided on the view with single-caller helper functions inlined; on the plain view an anchor was not resolved: "+first)
+}
+
 func loadKnown() KnownFile {
 	var kf KnownFile
 	b, err := os.ReadFile(filepath.Join(VerifDir(), "known_findings.json"))
